@@ -31,10 +31,12 @@ Record cfg := mkcfg {
   c_dbu_mantissa : bool;   (* LefDbuPerMicron::try_new looks at mantissa() and ignores the scale *)
   c_nowire_ungated : bool; (* reader accepts NOWIREEXTENSIONATPIN at any version, writer refuses it above 5.4 *)
   c_w_site_orig : bool;    (* writer: `SITE name ;`, `CLASS x;`, `END name ;` *)
-  c_w_prop_nosemi : bool   (* writer: `PROPERTY name value` without `;` *)
+  c_w_prop_nosemi : bool;  (* writer: `PROPERTY name value` without `;` *)
+  c_version_repeat : bool  (* reader accepts a second VERSION statement (which can raise the version after a
+                              statement of LEF <= 5.4 was accepted; the writer then refuses the library) *)
 }.
-Definition cfg_orig : cfg := mkcfg true true true true true true true.
-Definition cfg_fixed : cfg := mkcfg false false false false false false false.
+Definition cfg_orig : cfg := mkcfg true true true true true true true true.
+Definition cfg_fixed : cfg := mkcfg false false false false false false false false.
 
 Inductive ctx := CtxLibrary | CtxMacro | CtxPin | CtxPort | CtxPropertyDefinitions | CtxGeometry
                | CtxSite | CtxUnits | CtxDensity | CtxVia | CtxUnknown.
@@ -56,12 +58,12 @@ Definition err_type_eqb (a b : err_type) : bool :=
   | EtRequiredWord x, EtRequiredWord y => bytes_eqb x y
   | _, _ => false
   end.
-(** the `fail_msg` texts (MsgNoWire exists only in the repaired code) *)
-Inductive err_msg := MsgNone | MsgNamesCase | MsgSource | MsgProperty | MsgNoWire.
+(** the `fail_msg` texts (MsgNoWire, MsgVersionTwice exist only in the repaired code) *)
+Inductive err_msg := MsgNone | MsgNamesCase | MsgSource | MsgProperty | MsgNoWire | MsgVersionTwice.
 Definition err_msg_eqb (a b : err_msg) : bool :=
   match a, b with
   | MsgNone, MsgNone | MsgNamesCase, MsgNamesCase | MsgSource, MsgSource | MsgProperty, MsgProperty
-  | MsgNoWire, MsgNoWire => true
+  | MsgNoWire, MsgNoWire | MsgVersionTwice, MsgVersionTwice => true
   | _, _ => false
   end.
 
@@ -977,7 +979,10 @@ Fixpoint lib_loop (fuel : nat) (lib : lef_lib) : P lef_lib :=
       k <- peek_key ;;
       match k with
       | K_Macro => m <- parse_macro ;; lib_loop f (set_lib_macros (lib_macros lib ++ [m]) lib)
-      | K_Version => v <- parse_version ;; lib_loop f (set_lib_version (Some v) lib)
+      | K_Version =>
+        when (negb (c_version_repeat cf) && match lib_version lib with Some _ => true | None => false end)
+             (fail_msg EtInvalidKey MsgVersionTwice) ;;;
+        v <- parse_version ;; lib_loop f (set_lib_version (Some v) lib)
       | K_BusBitChars => c <- parse_bus_bit_chars ;; lib_loop f (set_lib_bus_bit_chars (Some c) lib)
       | K_DividerChar => c <- parse_divider_char ;; lib_loop f (set_lib_divider_char (Some c) lib)
       | K_NamesCaseSensitive =>
